@@ -38,9 +38,8 @@ SOURCES = CTOR_DST + ["Conformer"]
 ATOM_FIELDS = ["element", "isotope", "label", "atype", "stereo", "geom", "formal_charge", "formal_spin"]
 BOND_FIELDS = ["label", "btype", "stereo", "f_order"]
 
-# known findings (recorded in known_findings.d/C06.json); the Coq theorem excludes exactly these
-# (class, route, field) triples -- see Props/C06.v `known`.
-KNOWN_JOIN_CHARGES = "C06:Molecule:join-Molecule:charges-differ"
+# known findings would be recorded in known_findings.d/C06.json and excluded in Props/C06.v `known`
+# as (class, route, field) triples; none is open today.
 
 
 def Zt(z):
@@ -1039,7 +1038,7 @@ def run_case(ml, rng, kname, route, mut_side, want_mut=None, emit=True):
             side = "copy" if mut_side == "copy" else "source"
             out.violations.append((f"{tag}:leak:{mut}:{side}",
                                    f"after {route_name(route)} of a {kname}, `{mut}` applied to the {side} changed the other object: fields {diff_fields(s, now)}"))
-    out.key = (kname, route_name(route), mut, mut_side)
+    out.key = (kname, route_name(route), mut, mut_side, len(resu.atoms_list()))
     if emit:
         h2 = enc.read_all()
         prims = [f"(PAlloc CFree)" for _ in range(len(h1), len(h2))]
